@@ -348,7 +348,7 @@ theorem nf_wsDrop {w0 w : World} (c : Nat) (h : NF w0 w) : NF w0 (wsDrop w c) :=
   try dsimp only
   split
   · nf_auto
-  · split <;> nf_auto
+  · split <;> (try split) <;> nf_auto
 
 theorem nf_appClose {w0 w : World} (sid : Nat) (discard : Bool) (h : NF w0 w) : NF w0 (appClose w sid discard) := by
   unfold appClose
